@@ -212,7 +212,7 @@ def harness_index(am):
         def qual(pos, name):
             inner = [s[2] for s in sorted(spans) if s[0] <= pos < s[1]]
             return "::".join([modpath] + inner + [name])
-        for mm in re.finditer(r"kani::proof\)?\]\s*(?:#\[[^\]]*\]\s*)*(?:pub(?:\(crate\))?\s+)?fn\s+(\w+)\s*\(", txt):
+        for mm in re.finditer(r"kani::proof(?:_for_contract\([^)]*\))?\)?\]\s*(?:#\[[^\]]*\]\s*)*(?:pub(?:\(crate\))?\s+)?fn\s+(\w+)\s*\(", txt):
             name = mm.group(1)
             if name in idx:
                 raise ToolError("duplicate harness name " + name)
@@ -264,8 +264,8 @@ def limit_mem(gb):
     def f():
         os.setsid()  # own process group so that a timeout kills cargo-kani's children too
         # a runaway CBMC (one graph harness grew to 65 GB and was OOM-killed by the kernel) must fail by itself
-        # (-> "out of memory" -> UNDECIDED) instead of taking the machine down: cap the address space per process
-        lim = int(os.environ.get("AMV_AS_LIMIT_GB", "44")) << 30
+        # (-> "out of memory" -> UNDECIDED) instead of taking the machine down: cap the address space per process (56 GB of the 62 GB machine)
+        lim = int(os.environ.get("AMV_AS_LIMIT_GB", "56")) << 30
         try:
             resource.setrlimit(resource.RLIMIT_AS, (lim, lim))
         except Exception:
